@@ -13,7 +13,7 @@ import (
 
 func init() {
 	register("C12", propMeta{
-		Explanation: "Decides from the source constants and the shape of the code: (syntax) the three rule-syntax regular expressions (routing types.RulePattern, host.IsValidRule, host.IsValidID) are read from the source, must be anchored at both ends and, evaluated as constants over a witness family that is exhaustive for single-character fields over all 128 ASCII characters and covers field count (2,3,4), empty fields, '*' mixed with other characters and the 64/65 length boundary, accept exactly 'three comma-separated fields, each 1-64 characters of the permitted alphabet or a single *'; SetRoutingRules, GenesisState.Validate and RoutingRulesValidator reject (fail-only edge) every rule not matching that pattern before anything is stored; (matching) the text that reaches regexp.MatchString as pattern in Authenticate is the stored rule passed through a converter that is extracted from the SSA term (constants, concatenation, strings.Replace/ReplaceAll, regexp.QuoteMeta) and evaluated on every character of the permitted alphabet (tripled, to expose bounded replace counts): the image must parse (regexp/syntax) to the literal character itself, '*' to 'any run of characters', and the whole pattern must be anchored with ^ and $; the subject is source+\",\"+dest+\",\"+port of the function's own parameters; Authenticate returns false when no rules are stored and true only as the result of a match. For this property the structural conditions are essentially the whole matter; NOT decided: behaviour of Go's regexp engine itself.",
+		Explanation: "Decides from the source constants and the shape of the code: (syntax) the three rule-syntax regular expressions (routing types.RulePattern, host.IsValidRule, host.IsValidID) are read from the source, must be anchored at both ends and, evaluated as constants over a witness family that is exhaustive for single-character fields over all 128 ASCII characters and covers field count (2,3,4), empty fields, '*' mixed with other characters and the 64/65 length boundary, accept exactly 'three comma-separated fields, each 1-64 characters of the permitted alphabet or a single *'; SetRoutingRules, GenesisState.Validate and RoutingRulesValidator reject (fail-only edge) every rule not matching that pattern before anything is stored; (matching) the text that reaches regexp.MatchString as pattern in Authenticate is the stored rule passed through a converter that is extracted from the SSA term (constants, concatenation, strings.Replace/ReplaceAll, regexp.QuoteMeta) and evaluated on every character of the permitted alphabet (tripled, to expose bounded replace counts): the image must parse (regexp/syntax) to the literal character itself, '*' to 'any run of characters', and the whole pattern must be anchored with ^ and $; the subject is source+\",\"+dest+\",\"+port of the function's own parameters; Authenticate returns false when no rules are stored and true only as the result of a match. For this property the structural conditions are essentially the whole matter; Every accepted SetRoutingRules writes the rule table (no success path that leaves the previous table in force). NOT decided: behaviour of Go's regexp engine itself.",
 		Assumptions: []string{"Go's regexp and regexp/syntax implement RE2 semantics"},
 		Trusted:     commonTrusted,
 	}, ruleC12)
